@@ -600,219 +600,257 @@ def _asgi_case(rec, cfg, hist):
         rec.violation('app-failed', dict(wit0, status=res.status, outcome=res.outcome, exc=repr(res.exc),
                                          problems=res.problems[:3], steps_done=len(done)))
         return False
-    m = BodyModel(wire, cl)
-    first = events[0].get('body', b'')
-    off0 = len(first if cl is None else first[:cl])
-    tell_off = 0
-    tell_ok = True
-    closed = False
-    abandoned = False       # an iteration was left before it finished: a new iteration may be refused
-    armed = False           # ... and it was left right after the final event's body (classifier of K_ABANDON)
-    armed_live = False      # the stepped iterator is suspended right after the final event's body
-    intr_lost = False       # classifier of K_INTR: an interrupted read had already taken bytes into a local list
-    recv_bytes = len(first)  # body bytes the server has handed over so far
-    if fault is not None:
-        rec.count('class.asgi.fault.' + fault[1])
+    def judge(drop_hypothesis, cnt, state):
+        """One pass over the log.  drop_hypothesis=False is the oracle.  True re-reads the same log assuming the
+        recorded mechanism K_INTR (an interrupted read()/readall() forgets the bytes it had already taken), so that
+        what follows can still be judged and attributed; it is only consulted when the oracle pass has failed."""
+        reports = []
 
-    def report_parked(i, outcome, prog=None):
-        op = hist[i]
-        arm = armed or armed_live
-        if op[0] == 'iterk' and op[2] == 'exhaust' and isinstance(prog, tuple):
-            # parked in the exhaust() that follows the abandoned iteration: judge the chunks it handed out first
-            out, ended_it = prog[:2]
-            for kind, fatal, detail in m.take(b''.join(out), None, empty_ok=True):
-                key = K_INTR if (intr_lost and (kind in LOSS_KINDS or kind == 'returned-bytes-not-next-in-body')) \
-                    else None
-                _report(rec, kind, dict(wit0, step=i, op=op, got=out, detail=detail), key)
-                return False
-            arm = arm or _abandoned_on_final_event(m, events, cl, out, ended_it)
-        key = K_ABANDON if (arm and outcome == 'blocked' and not closed) else None
-        rec.violation('blocked-on-receive-with-nothing-more-to-come',
-                      dict(wit0, step=i, op=op, outcome=outcome, receive_calls=res.receive_calls,
-                           receive_after_script=res.receive_after_script), known_key=key)
-        return False
+        def emit(kind, wit, key):
+            reports.append((kind, wit, key))
+            return key is not None and key in rec.known_keys
 
-    for i, (op, (r, (eof, tell), prog)) in enumerate(zip(hist, done)):
-        findings = []          # (kind, fatal, detail, key)
-        k = op[0]
-        rec.count('mon.asgi.op.' + k)
-        got = None
-        reported_end = False
-        got_bytes = sum(n for st, n in ctx.deliv if st == i)
-        buffered_before = 0 if m.discarded else max(min(recv_bytes, m.total) - m.cur.pos, 0)
-        recv_bytes += got_bytes
-        interrupted = (r[0] == 'exc' and ctx.fault_step == i and
-                       r[1].startswith(('ReceiveFault', 'TimeoutError', 'CancelledError')))
-        if interrupted:
-            # the await on receive() inside this operation was interrupted; nothing (more) was returned by it
-            got = r[1]
-            rec.count('fault.asgi.interrupted.' + k)
-            if k in ('read', 'readall'):
-                unsized = k == 'readall' or op[1] is None or op[1] == -1
-                if got_bytes + (buffered_before if unsized else 0) > 0:
-                    intr_lost = True        # bytes were already moved into the local chunk list (known finding)
-                    rec.count('fault.asgi.interrupted_with_bytes_in_flight')
-                else:
-                    rec.count('fault.asgi.interrupted_before_anything_was_taken')
-            elif k in ('iter', 'iterk', 'anext'):
-                out = prog[0] if isinstance(prog, tuple) else (prog or [])
-                findings += [f + (None,) for f in m.take(b''.join(out), None, empty_ok=True)]
-                armed_live = False
-                if isinstance(prog, tuple) and prog[2] == 'clean-up':
-                    # the iteration part was over; the exhaust() that followed it was interrupted
-                    abandoned = abandoned or bool(out and not prog[1])
+        ok = judge_steps(drop_hypothesis, cnt, state, emit)
+        return ok, reports
+
+    def judge_steps(drop_hypothesis, cnt, state, emit):
+        m = BodyModel(wire, cl)
+        first = events[0].get('body', b'')
+        off0 = len(first if cl is None else first[:cl])
+        tell_off = 0
+        tell_ok = True
+        closed = False
+        abandoned = False       # an iteration was left before it finished: a new iteration may be refused
+        armed = False           # ... and it was left right after the final event's body (classifier of K_ABANDON)
+        armed_live = False      # the stepped iterator is suspended right after the final event's body
+        recv_bytes = len(first)  # body bytes the server has handed over so far
+        if fault is not None:
+            cnt('class.asgi.fault.' + fault[1])
+
+        def report_parked(i, outcome, prog=None):
+            op = hist[i]
+            arm = armed or armed_live
+            if op[0] == 'iterk' and op[2] == 'exhaust' and isinstance(prog, tuple):
+                # parked in the exhaust() that follows the abandoned iteration: judge the chunks it handed out first
+                out, ended_it = prog[:2]
+                for kind, fatal, detail in m.take(b''.join(out), None, empty_ok=True):
+                    emit(kind, dict(wit0, step=i, op=op, got=out, detail=detail), None)
+                    return False
+                arm = arm or _abandoned_on_final_event(m, events, cl, out, ended_it)
+            key = K_ABANDON if (arm and outcome == 'blocked' and not closed) else None
+            emit('blocked-on-receive-with-nothing-more-to-come',
+                 dict(wit0, step=i, op=op, outcome=outcome, receive_calls=res.receive_calls,
+                      receive_after_script=res.receive_after_script), key)
+            return False
+
+        for i, (op, (r, (eof, tell), prog)) in enumerate(zip(hist, done)):
+            findings = []          # (kind, fatal, detail, key)
+            k = op[0]
+            cnt('mon.asgi.op.' + k)
+            got = None
+            reported_end = False
+            got_bytes = sum(n for st, n in ctx.deliv if st == i)
+            buffered_before = 0 if m.discarded else max(min(recv_bytes, m.total) - m.cur.pos, 0)
+            recv_bytes += got_bytes
+            interrupted = (r[0] == 'exc' and ctx.fault_step == i and
+                           r[1].startswith(('ReceiveFault', 'TimeoutError', 'CancelledError')))
+            if interrupted:
+                # the await on receive() inside this operation was interrupted; nothing (more) was returned by it
+                got = r[1]
+                cnt('fault.asgi.interrupted.' + k)
+                if k in ('read', 'readall'):
+                    unsized = k == 'readall' or op[1] is None or op[1] == -1
+                    if got_bytes + (buffered_before if unsized else 0) > 0:
+                        # bytes were already moved into the operation's local chunk list (recorded finding K_INTR)
+                        state['intr_lost'] = True
+                        cnt('fault.asgi.interrupted_with_bytes_in_flight')
+                        if drop_hypothesis:
+                            # what the recorded mechanism does: those bytes are gone, the stream goes on behind them
+                            hi = min(recv_bytes, m.total)
+                            lo = m.cur.pos if unsized else min(recv_bytes - got_bytes, m.total)
+                            if hi > lo:
+                                nm = BodyModel(m.wire[:lo] + m.wire[hi:], None if m.limit is None else m.limit - (hi - lo))
+                                nm.cur.pos, nm.returned = m.cur.pos, m.returned
+                                m = nm
+                                recv_bytes -= hi - lo
+                    else:
+                        cnt('fault.asgi.interrupted_before_anything_was_taken')
+                elif k in ('iter', 'iterk', 'anext'):
+                    out = prog[0] if isinstance(prog, tuple) else (prog or [])
+                    findings += [f + (None,) for f in m.take(b''.join(out), None, empty_ok=True)]
+                    if k == 'anext':
+                        armed_live = False      # the stepped iterator itself is finished by the exception
+                    if isinstance(prog, tuple) and prog[2] == 'clean-up':
+                        # the iteration part was over; the exhaust() that followed it was interrupted
+                        abandoned = abandoned or bool(out and not prog[1])
+                        if not findings:
+                            armed = armed or _abandoned_on_final_event(m, events, cl, out, prog[1])
+                        m.cur.pos = max(m.cur.pos, min(recv_bytes, m.total))
+                        m.discarded = True
+                    else:
+                        abandoned = True        # the generator is finished by the exception
+                elif k == 'exhaust':
+                    # what had been handed over was discarded; the stream continues behind it
                     m.cur.pos = max(m.cur.pos, min(recv_bytes, m.total))
                     m.discarded = True
+            elif r[0] == 'exc' and fault is not None and fault[1] == 'cancel' and r[1].startswith('TimeoutError') \
+                    and not closed:
+                # under the application's timeout a park on receive() surfaces as TimeoutError: same as 'blocked'
+                return report_parked(i, 'blocked', prog)
+            elif r[0] == 'exc':
+                got = r[1]
+                if closed:
+                    cnt('asgi.raised_after_close')
+                elif (abandoned or ctx.it is not None) and k in ('iter', 'iterk', 'anext') and \
+                        r[1].startswith('OperationNotAllowed'):
+                    cnt('asgi.iteration_refused_after_abandoned_iteration')
                 else:
-                    abandoned = True        # the generator is finished by the exception
-            elif k == 'exhaust':
-                # what had been handed over was discarded; the stream continues behind it
-                m.cur.pos = max(m.cur.pos, min(recv_bytes, m.total))
-                m.discarded = True
-        elif r[0] == 'exc' and fault is not None and fault[1] == 'cancel' and r[1].startswith('TimeoutError') \
-                and not closed:
-            # under the application's timeout a park on receive() surfaces as TimeoutError: same as 'blocked'
-            return report_parked(i, 'blocked', prog)
-        elif r[0] == 'exc':
-            got = r[1]
-            if closed:
-                rec.count('asgi.raised_after_close')
-            elif (abandoned or ctx.it is not None) and k in ('iter', 'iterk', 'anext') and \
-                    r[1].startswith('OperationNotAllowed'):
-                rec.count('asgi.iteration_refused_after_abandoned_iteration')
-            else:
-                findings.append(('operation-raised', True, r[1], None))
-        elif r[0] == 'runaway':
-            findings.append(('iteration-does-not-terminate', True, r[1], None))
-        elif r[0] == 'stop':
-            got = 'StopAsyncIteration'
-            rec.count('branch.asgi.anext_stop')
-            armed_live = False
-            if not closed:
-                fs = m.end_reported()
-                findings += [f + (None,) for f in fs]
-                reported_end = not fs
-        else:
-            got = r[1]
-            if k in ('read', 'readall'):
-                size = op[1] if k == 'read' else None
-                unsized = size is None or size == -1
-                before = m.cur.pos
-                fs = m.take(got, None if unsized else size, to_end=unsized)
-                for kind, fatal, detail in fs:
-                    key = None
-                    if kind == 'sized-read-exceeds-size' and cl is not None and len(wire) > cl and m.cur.pos == cl \
-                            and before < cl:
-                        key = K_OVERSIZE     # the chunk crossing Content-Length is returned whole-to-the-limit
-                    findings.append((kind, fatal, detail, key))
-                reported_end = unsized and not fs
-                if not unsized and size > 0 and len(got) < min(size, m.total - before):
-                    rec.count('asgi.short_sized_read')
-            elif k == 'iter':
-                fs = m.take(b''.join(got), None, to_end=True)
-                findings += [f + (None,) for f in fs]
-                reported_end = not fs
-                rec.count('asgi.iter_chunks', len(got))
-            elif k == 'anext':
-                fs = m.take(got, None)
-                findings += [f + (None,) for f in fs]
-                armed_live = not fs and _abandoned_on_final_event(m, events, cl, [got], False)
-                if i > 0 and hist[i - 1][0] in ('exhaust', 'close'):
-                    rec.count('branch.asgi.iterator_resumed_after_exhaust_or_close')
-            elif k == 'iterk':
-                out, ended_it = got
-                fs = m.take(b''.join(out), None, empty_ok=True)
-                if ended_it and not fs:
+                    findings.append(('operation-raised', True, r[1], None))
+            elif r[0] == 'runaway':
+                findings.append(('iteration-does-not-terminate', True, r[1], None))
+            elif r[0] == 'stop':
+                got = 'StopAsyncIteration'
+                cnt('branch.asgi.anext_stop')
+                armed_live = False
+                if not closed:
                     fs = m.end_reported()
-                findings += [f + (None,) for f in fs]
-                if op[2] == 'exhaust':
+                    findings += [f + (None,) for f in fs]
+                    reported_end = not fs
+            else:
+                got = r[1]
+                if k in ('read', 'readall'):
+                    size = op[1] if k == 'read' else None
+                    unsized = size is None or size == -1
+                    before = m.cur.pos
+                    fs = m.take(got, None if unsized else size, to_end=unsized)
+                    for kind, fatal, detail in fs:
+                        key = None
+                        if kind == 'sized-read-exceeds-size' and cl is not None and len(wire) > cl and m.cur.pos == cl \
+                                and before < cl:
+                            key = K_OVERSIZE     # the chunk crossing Content-Length is returned whole-to-the-limit
+                        findings.append((kind, fatal, detail, key))
+                    reported_end = unsized and not fs
+                    if not unsized and size > 0 and len(got) < min(size, m.total - before):
+                        cnt('asgi.short_sized_read')
+                elif k == 'iter':
+                    fs = m.take(b''.join(got), None, to_end=True)
+                    findings += [f + (None,) for f in fs]
+                    reported_end = not fs
+                    cnt('asgi.iter_chunks', len(got))
+                elif k == 'anext':
+                    fs = m.take(got, None)
+                    findings += [f + (None,) for f in fs]
+                    armed_live = not fs and _abandoned_on_final_event(m, events, cl, [got], False)
+                    if i > 0 and hist[i - 1][0] in ('exhaust', 'close'):
+                        cnt('branch.asgi.iterator_resumed_after_exhaust_or_close')
+                elif k == 'iterk':
+                    out, ended_it = got
+                    fs = m.take(b''.join(out), None, empty_ok=True)
+                    if ended_it and not fs:
+                        fs = m.end_reported()
+                    findings += [f + (None,) for f in fs]
+                    if op[2] == 'exhaust':
+                        m.discard_rest()
+                        reported_end = True
+                    elif op[2] == 'close':
+                        closed = True
+                    else:
+                        reported_end = ended_it and not fs
+                        if out and not ended_it:
+                            abandoned = True
+                            cnt('branch.asgi.iteration_abandoned')
+                            if m.cur.pos > sum(len(x) for x in out):
+                                cnt('branch.asgi.iteration_abandoned_after_reads')
+                            armed = armed or _abandoned_on_final_event(m, events, cl, out, ended_it)
+                elif k == 'exhaust':
                     m.discard_rest()
                     reported_end = True
-                elif op[2] == 'close':
+                elif k == 'close':
                     closed = True
+            if r[0] == 'stop' and i > 0 and hist[i - 1][0] in ('exhaust', 'close'):
+                cnt('branch.asgi.iterator_resumed_after_exhaust_or_close')
+            if closed:
+                findings = [f for f in findings if f[0] not in LOSS_KINDS]
+            fatal_data = any(f[1] for f in findings)
+            if not closed and not fatal_data:
+                cnt('mon.asgi.eof')
+                if eof is True:
+                    if not m.at_end():
+                        findings.append(('eof-true-before-whole-body', True, '%d bytes not delivered' % len(m.rest()), None))
+                    else:
+                        cnt('branch.asgi.eof_true_at_end')
+                elif eof is False:
+                    if reported_end:
+                        findings.append(('eof-false-after-end-of-stream-reported', False, 'after %s' % k, None))
+                    elif m.limit_reached():
+                        findings.append(('eof-false-after-content-length-consumed', False, 'consumed %d' % m.cur.pos, None))
+                    else:
+                        cnt('branch.asgi.eof_false')
                 else:
-                    reported_end = ended_it and not fs
-                    if out and not ended_it:
-                        abandoned = True
-                        rec.count('branch.asgi.iteration_abandoned')
-                        if m.cur.pos > sum(len(x) for x in out):
-                            rec.count('branch.asgi.iteration_abandoned_after_reads')
-                        armed = armed or _abandoned_on_final_event(m, events, cl, out, ended_it)
-            elif k == 'exhaust':
-                m.discard_rest()
-                reported_end = True
-            elif k == 'close':
-                closed = True
-        if r[0] == 'stop' and i > 0 and hist[i - 1][0] in ('exhaust', 'close'):
-            rec.count('branch.asgi.iterator_resumed_after_exhaust_or_close')
-        if closed:
-            findings = [f for f in findings if f[0] not in LOSS_KINDS]
-        fatal_data = any(f[1] for f in findings)
-        if not closed and not fatal_data:
-            rec.count('mon.asgi.eof')
-            if eof is True:
-                if not m.at_end():
-                    findings.append(('eof-true-before-whole-body', True, '%d bytes not delivered' % len(m.rest()), None))
-                else:
-                    rec.count('branch.asgi.eof_true_at_end')
-            elif eof is False:
-                if reported_end:
-                    findings.append(('eof-false-after-end-of-stream-reported', False, 'after %s' % k, None))
-                elif m.limit_reached():
-                    findings.append(('eof-false-after-content-length-consumed', False, 'consumed %d' % m.cur.pos, None))
-                else:
-                    rec.count('branch.asgi.eof_false')
-            else:
-                findings.append(('eof-raised', False, eof, None))
-        if not fatal_data and tell_ok:
-            rec.count('mon.asgi.tell')
-            if not isinstance(tell, int):
-                findings.append(('tell-raised', False, tell, None))
-                tell_ok = False
-            elif not m.discarded:
-                if tell == m.returned + tell_off:
-                    pass
-                elif tell_off == 0 and off0 > 0 and tell == m.returned + off0:
-                    tell_off = off0
-                    findings.append(('tell-disagrees-with-bytes-returned', False,
-                                     'tell %d returned %d first chunk %d' % (tell, m.returned, off0), K_TELL))
-                else:
-                    findings.append(('tell-disagrees-with-bytes-returned', False,
-                                     'tell %d returned %d' % (tell, m.returned), None))
+                    findings.append(('eof-raised', False, eof, None))
+            if not fatal_data and tell_ok:
+                cnt('mon.asgi.tell')
+                if not isinstance(tell, int):
+                    findings.append(('tell-raised', False, tell, None))
                     tell_ok = False
-            else:
-                # after exhaust(): somewhere between what was returned and the whole expected body
-                lo, hi = m.returned, m.total
-                if lo <= tell - tell_off <= hi:
-                    rec.count('branch.asgi.tell_after_exhaust')
-                elif tell_off == 0 and off0 > 0 and lo <= tell - off0 <= hi:
-                    tell_off = off0
-                    findings.append(('tell-out-of-range-after-exhaust', False,
-                                     'tell %d not in [%d, %d] first chunk %d' % (tell, lo, hi, off0), K_TELL))
+                elif not m.discarded:
+                    if tell == m.returned + tell_off:
+                        pass
+                    elif tell_off == 0 and off0 > 0 and tell == m.returned + off0:
+                        tell_off = off0
+                        findings.append(('tell-disagrees-with-bytes-returned', False,
+                                         'tell %d returned %d first chunk %d' % (tell, m.returned, off0), K_TELL))
+                    else:
+                        findings.append(('tell-disagrees-with-bytes-returned', False,
+                                         'tell %d returned %d' % (tell, m.returned), None))
+                        tell_ok = False
                 else:
-                    key = None
-                    if cl is not None and len(wire) > cl and tell - tell_off > hi and tell - off0 <= len(wire):
-                        key = K_EXH          # exhaust() counts the whole oversized chunk
-                    findings.append(('tell-out-of-range-after-exhaust', False,
-                                     'tell %d not in [%d, %d]' % (tell, lo + tell_off, hi + tell_off), key))
-                    tell_ok = False
-        if m.at_end() and i < len(hist) - 1:
-            rec.count('branch.asgi.op_after_end')
-        stop = False
-        for kind, fatal, detail, key in findings:
-            if key is None and intr_lost and (kind in LOSS_KINDS or kind == 'returned-bytes-not-next-in-body'):
-                key = K_INTR
-            known = _report(rec, kind, dict(wit0, step=i, op=op, got=got, eof=eof, tell=tell, detail=detail), key)
-            if not known or fatal:
-                stop = True
-        if stop:
-            return False
-    if parked:
-        # the application is parked on receive() although the script has nothing more to deliver
-        i = len(done)
-        slot = ctx.log[i] if i < len(ctx.log) else None
-        return report_parked(i, res.outcome, slot[1] if isinstance(slot, list) else None)
-    return True
+                    # after exhaust(): somewhere between what was returned and the whole expected body
+                    lo, hi = m.returned, m.total
+                    if lo <= tell - tell_off <= hi:
+                        cnt('branch.asgi.tell_after_exhaust')
+                    elif tell_off == 0 and off0 > 0 and lo <= tell - off0 <= hi:
+                        tell_off = off0
+                        findings.append(('tell-out-of-range-after-exhaust', False,
+                                         'tell %d not in [%d, %d] first chunk %d' % (tell, lo, hi, off0), K_TELL))
+                    else:
+                        key = None
+                        if cl is not None and len(wire) > cl and tell - tell_off > hi and tell - off0 <= len(wire):
+                            key = K_EXH          # exhaust() counts the whole oversized chunk
+                        findings.append(('tell-out-of-range-after-exhaust', False,
+                                         'tell %d not in [%d, %d]' % (tell, lo + tell_off, hi + tell_off), key))
+                        tell_ok = False
+            if m.at_end() and i < len(hist) - 1:
+                cnt('branch.asgi.op_after_end')
+            stop = False
+            for kind, fatal, detail, key in findings:
+                known = emit(kind, dict(wit0, step=i, op=op, got=got, eof=eof, tell=tell, detail=detail), key)
+                if not known or fatal:
+                    stop = True
+            if stop:
+                return False
+        if parked:
+            # the application is parked on receive() although the script has nothing more to deliver
+            i = len(done)
+            slot = ctx.log[i] if i < len(ctx.log) else None
+            return report_parked(i, res.outcome, slot[1] if isinstance(slot, list) else None)
+        return True
+
+    st_a = {'intr_lost': False}
+    ok, reports = judge(False, rec.count, st_a)
+    if reports and st_a['intr_lost'] and any(key is None or key not in rec.known_keys for _, _, key in reports):
+        first_bad = next(r for r in reports if r[2] is None or r[2] not in rec.known_keys)
+        if first_bad[0] in LOSS_KINDS or first_bad[0] in ('returned-bytes-not-next-in-body',
+                                                           'blocked-on-receive-with-nothing-more-to-come'):
+            ok_b, reports_b = judge(True, lambda *a: None, {'intr_lost': False})
+            keep = reports[:reports.index(first_bad)]
+            reports = keep + [(first_bad[0], dict(first_bad[1], explained_by='bytes taken by the interrupted read '
+                                                  'are gone; the rest of the history was judged on that basis'),
+                               K_INTR)] + [r for r in reports_b if r not in keep]
+            ok = ok_b
+    for kind, wit, key in reports:
+        rec.violation(kind, wit, known_key=key)
+    return ok and not reports
 
 
 # ------------------------------------------------------------------ generators
